@@ -3,6 +3,9 @@
 //! model (folder id -> name, secret id -> (label, text)):
 //!   * after the history, and again after sign-out / sign-in from persisted storage: the user folders, their
 //!     names, the live secret ids of each folder and every secret's label and text equal the model (C01);
+//!   * the search index holds exactly one document per live secret with its current label, live and rebuilt after
+//!     sign-in (C20); compaction leaves the model unchanged, and after change_account_password the old password no
+//!     longer signs in while the new one does and serves the same model (C12);
 //!   * export_backup_archive, import into EMPTY storage of the same backend kind, sign in with the same
 //!     password: same folders and decrypted secrets (C18 sentence 1);
 //!   * an archive in which one non-manifest entry is modified (manifest kept), and — when the entry exists —
@@ -91,6 +94,23 @@ async fn compare(view: &str, backend: &str, account: &LocalAccount, model: &Mode
     }
 }
 
+/// C20 at account level: the search index holds exactly one document per live secret of the model's folders,
+/// carrying its current label, and no document for anything else
+async fn compare_index(view: &str, backend: &str, account: &LocalAccount, model: &Model, trace: &Vec<String>, case: usize) {
+    let index = account.search_index().await.unwrap();
+    let index = index.read().await;
+    let mut got: Vec<(VaultId, uuid::Uuid, String)> = index.documents().values().map(|d| (*d.folder_id(), *d.id(), d.meta().label().to_string())).collect();
+    got.sort();
+    let mut want: Vec<(VaultId, uuid::Uuid, String)> = vec![];
+    for (fid, (_, secrets)) in model.iter() { for (id, (label, _)) in secrets.iter() { want.push((*fid, *id, label.clone())); } }
+    want.sort();
+    if got != want {
+        let stale: Vec<&(VaultId, uuid::Uuid, String)> = got.iter().filter(|g| !want.contains(g)).collect();
+        let missing: Vec<&(VaultId, uuid::Uuid, String)> = want.iter().filter(|g| !got.contains(g)).collect();
+        fail("search-index-differs-from-folders", format!("\"backend\":\"{}\",\"view\":\"{}\",\"case\":{},\"trace\":{:?},\"documents\":{},\"live_secrets\":{},\"stale_or_wrong\":{:?},\"missing\":{:?}", backend, view, case, trace, got.len(), want.len(), stale.iter().map(|x| &x.2).collect::<Vec<_>>(), missing.iter().map(|x| &x.2).collect::<Vec<_>>()));
+    }
+}
+
 async fn read_entries(path: &Path) -> Vec<(String, Vec<u8>)> {
     let buffer = std::fs::read(path).unwrap();
     let mut reader = ZipReader::new(Cursor::new(buffer)).await.unwrap();
@@ -145,6 +165,7 @@ pub async fn run(cases: usize, seed: u64) {
             let account_id = *account.account_id();
             let key: AccessKey = password.clone().into();
             account.sign_in(&key).await.unwrap();
+            account.initialize_search_index().await.unwrap();
             let default_folder = account.default_folder().await.unwrap();
             let mut model: Model = BTreeMap::new();
             model.insert(*default_folder.id(), (default_folder.name().to_string(), BTreeMap::new()));
@@ -166,7 +187,11 @@ pub async fn run(cases: usize, seed: u64) {
             for _ in 0..n {
                 let fids: Vec<VaultId> = model.keys().copied().collect();
                 let fid = fids[r.below(fids.len() as u64) as usize];
-                match r.below(9) {
+                match r.below(10) {
+                    9 => {
+                        account.compact_folder(&fid).await.unwrap();
+                        trace.push("compact_folder".into());
+                    }
                     0 | 1 | 2 => {
                         let (m, s, l, t) = note(&mut r);
                         let id = account.create_secret(m, s, AccessOptions { folder: Some(fid), ..Default::default() }).await.unwrap().id;
@@ -228,9 +253,36 @@ pub async fn run(cases: usize, seed: u64) {
                 }
             }
             compare("live", backend, &account, &model, &trace, case).await;
-            account.sign_out().await.unwrap();
-            account.sign_in(&key).await.unwrap();
+            compare_index("live", backend, &account, &model, &trace, case).await;
+            if std::env::var("SOS_ACCT_SELFTEST").is_ok() {
+                // oracle self-test: with one label of the model changed the index comparison MUST report a difference
+                let mut wrong = model.clone();
+                let mut done = false;
+                for (_, (_, secrets)) in wrong.iter_mut() { for (_, v) in secrets.iter_mut() { if !done { v.0.push_str("-x"); done = true; } } }
+                if done { compare_index("selftest (planted difference)", backend, &account, &wrong, &trace, case).await; }
+            }
+            // C12: every third history ends with an account password change
+            let mut key = key;
+            if case % 3 == 0 {
+                let new_password: secrecy::SecretString = format!("another long pass phrase {} {}", case, r.below(1000000)).into();
+                account.change_account_password(new_password.clone()).await.unwrap();
+                trace.push("change_account_password".into());
+                compare("after password change", backend, &account, &model, &trace, case).await;
+                account.sign_out().await.unwrap();
+                if account.sign_in(&key).await.is_ok() {
+                    fail("old-password-still-signs-in", format!("\"backend\":\"{}\",\"case\":{},\"trace\":{:?}", backend, case, trace));
+                }
+                key = new_password.into();
+                if let Err(e) = account.sign_in(&key).await {
+                    fail("new-password-does-not-sign-in", format!("\"backend\":\"{}\",\"case\":{},\"trace\":{:?},\"error\":\"{}\"", backend, case, trace, e.to_string().replace('"', "'")));
+                }
+            } else {
+                account.sign_out().await.unwrap();
+                account.sign_in(&key).await.unwrap();
+            }
             compare("after sign-out/sign-in", backend, &account, &model, &trace, case).await;
+            account.initialize_search_index().await.unwrap();
+            compare_index("rebuilt after sign-in", backend, &account, &model, &trace, case).await;
 
             let status_before = { use sos_sync::SyncStorage; account.sync_status().await.unwrap() };
             // ---- C18: export, import into empty storage ---------------------------------------------
